@@ -369,8 +369,15 @@ func genSqueeze(r *gen.R, validOnly bool) (mon.OpReq, Expect, bool) {
 
 func genUnsqueeze(r *gen.R, validOnly bool) (mon.OpReq, Expect, bool) {
 	x := c07Input(r, 0)
-	if x.Rank() > 4 {
-		return mon.OpReq{}, Expect{}, false
+	if r.Chance(0.08) { // ranks 6..9, mostly extent 1
+		shape := make([]int, r.Range(6, 9))
+		for i := range shape {
+			shape[i] = 1
+			if r.Chance(0.3) {
+				shape[i] = r.Range(2, 3)
+			}
+		}
+		x = r.Tensor(x.DT, shape, gen.FillUnique, 0)
 	}
 	k := r.Range(1, 3)
 	if r.Chance(0.03) {
